@@ -2,6 +2,7 @@
 // C05 (cross-validation predictions are out-of-sample, folds are partitions, residual definition).
 // See DESIGN.md section 3.
 #include "lib.hpp"
+#include <xmmintrin.h>
 #include <algorithm>
 
 // pristine reference server (sim/pristine.cpp): digests computed in a process image that never called the library before
@@ -23,6 +24,7 @@ struct Case {
   double testsize = 0.2;
   int conc_threads = 2;
   int kinit = 3;   // start-centroid method of KMeansRandomGroupsCV
+  int prior_profile = 0;   // 0 none, 1..6: unrelated library work done in the calling thread before the call under test
 };
 
 struct Out {
@@ -41,7 +43,7 @@ static Case case_from_plan(const Plan &p) {
   Case c;
   c.learner = (int)p.geti("learner"); c.nlv = (int)p.geti("nlv", 1); c.xs = (int)p.geti("xscaling"); c.ys = (int)p.geti("yscaling");
   c.routine = (int)p.geti("routine"); c.groups = (int)p.geti("groups", 3); c.iters = (int)p.geti("iterations", 1);
-  c.nthreads = (int)p.geti("nthreads", 1); c.nproc = (int)p.geti("machine.nproc", 1); c.noise = (int)p.geti("noise", 0); c.kinit = (int)p.geti("kinit", 3);
+  c.nthreads = (int)p.geti("nthreads", 1); c.nproc = (int)p.geti("machine.nproc", 1); c.noise = (int)p.geti("noise", 0); c.kinit = (int)p.geti("kinit", 3); c.prior_profile = (int)p.geti("prior_profile", 0);
   c.gen_seed = (unsigned)p.getu("gen_seed", 1); c.testsize = p.getd("testsize", 0.2); c.conc_threads = (int)p.geti("conc_threads", 2);
   int n = (int)p.geti("objects"), px = (int)p.geti("xcols"), ny = (int)p.geti("ycols", 1);
   Prng dr(p.getu("data.seed"), PURPOSE_WORKLOAD);
@@ -79,9 +81,13 @@ struct Call { const Case *c; Out *o; int nthreads; bool noise; const Mat *Yover;
 // profiles (chosen by the plan): random-number calls, container work (sorting by another column, copies), distance / selection
 // routines, k-means, a PCA fit, an MLR or PLS fit.  Nothing it touches is shared with the routine under test, so any interference
 // is state the library keeps behind the caller's back.
+static void other_library_work(const Case *c, int profile);
 static void *noise_client(void *a) {
   const Case *c = (const Case *)a;
-  int profile = c->noise > 0 ? c->noise - 1 : 0;
+  other_library_work(c, c->noise > 0 ? c->noise - 1 : 0);
+  return nullptr;
+}
+static void other_library_work(const Case *c, int profile) {
   Prng r(c->gen_seed * 2654435761u + 17, PURPOSE_WORKLOAD);
   matrix *m; NewMatrix(&m, 7, 3);
   for (size_t i = 0; i < m->row; i++) for (size_t j = 0; j < m->col; j++) m->data[i][j] = r.uniform(-5, 5) + (double)j;
@@ -125,7 +131,6 @@ static void *noise_client(void *a) {
       break; }
   }
   DelMatrix(&m);
-  return nullptr;
 }
 
 struct SplitArg { const Case *c; unsigned seed; Mat gid, xtr, ytr, xte, yte; std::vector<size_t> ids; };
@@ -157,6 +162,7 @@ static void *split_worker(void *a_) {
 static void call_routine(void *arg) {
   Call &k = *(Call *)arg;
   const Case &c = *k.c; Out &o = *k.o;
+  if (k.prior && c.prior_profile > 0) { other_library_work(&c, c.prior_profile - 1); if (getenv("HCV_DEBUG")) fprintf(stderr, "after prior profile %d: mxcsr=0x%04x\n", c.prior_profile - 1, _mm_getcsr()); }   // "whatever library calls were made earlier": unrelated work in the SAME thread first
   if (k.prior) {
     // "whatever came before": an earlier, different call of the same routine in this process (other responses, other seed,
     // other iteration count) must leave nothing behind that changes the call under test
@@ -338,6 +344,7 @@ struct HCv : Harness {
     if (routine == R_KMEANS_CV) p.seti("kinit", (int)wr.below(4));
     p.seti("noise", c06 && wr.chance(0.4) ? 1 + (int)wr.below(6) : 0);   // 0 none, 1..6 the profile of the concurrent caller
     p.seti("prior_call", c06 && routine != R_YSCR_BOOT && wr.chance(0.3) ? 1 : 0);
+    if (p.geti("prior_call")) p.seti("prior_profile", (int)wr.below(7));
     p.setu("gen_seed", 1 + wr.below(1000000));
     p.setd("testsize", wr.chance(0.2) ? 1.5 : wr.uniform(0.05, 0.6));
     p.setu("data.seed", wr.next() >> 4);
@@ -367,7 +374,7 @@ struct HCv : Harness {
   }
 
   // ------------------------------------------------------------------------------------------
-  struct RunRes { int rc; sim_result sr; int unjoined; std::string race_cls, race_txt, switches; };
+  struct RunRes { int rc; sim_result sr; int unjoined; std::string race_cls, race_txt, switches, fpenv; };
 
   RunRes run_once(const Plan &p, const Case &c, Out &o, int strategy_override, int nthreads, int nproc, bool noise, long long clock_shift, const Mat *Yover = nullptr, bool prior = false, int garbage_mode = 1) {
     sim_cfg sc; std::vector<sim_switch> rs;
@@ -377,7 +384,13 @@ struct HCv : Harness {
     sim_begin_run(&sc);
     Call k{&c, &o, nthreads, noise, Yover, prior};
     RunRes r;
+    // the floating-point control state of the calling thread (rounding mode, flush-to-zero, denormals-are-zero, exception masks) is
+    // machine state that outlives a call: a routine that leaves it changed makes every later call in the thread depend on it
+    unsigned csr0 = _mm_getcsr() & 0xFFC0u; unsigned short cw0 = 0; __asm__ __volatile__("fnstcw %0" : "=m"(cw0));
     r.rc = sim_guard(call_routine, &k);
+    { unsigned csr1 = _mm_getcsr() & 0xFFC0u; unsigned short cw1 = 0; __asm__ __volatile__("fnstcw %0" : "=m"(cw1));
+      if (csr1 != csr0 || cw1 != cw0) { char m[160]; snprintf(m, sizeof m, "MXCSR control bits 0x%04x -> 0x%04x, x87 control word 0x%04x -> 0x%04x", csr0, csr1, cw0, cw1); r.fpenv = m;
+        _mm_setcsr((_mm_getcsr() & ~0xFFC0u) | csr0); __asm__ __volatile__("fldcw %0" : : "m"(cw0)); } }
     r.unjoined = sim_unjoined();
     sim_end_run(&r.sr);
     if (r.sr.races && races_are_verdicts()) { r.race_cls = race_class(); r.race_txt = races_text(); }
@@ -421,6 +434,7 @@ struct HCv : Harness {
     if (ra.rc == SIM_CEILING || rc.rc == SIM_CEILING || rb.rc == SIM_CEILING) { o.counters["skipped.step_ceiling"]++; return o; }  // liveness is C18's business
     if (ra.rc || rc.rc || rb.rc) { o.fail("abort", std::string(routine_name[c.routine]) + ": library aborted on a valid call"); return o; }
     std::string w;
+    for (RunRes *r : {&ra, &rc, &rb}) if (!r->fpenv.empty()) { o.fail("fp-environment-changed", std::string(routine_name[c.routine]) + ": the call (or the unrelated library work done in the same thread before it) returns with the thread's floating-point control state changed (" + r->fpenv + "): later calls in this thread compute under another mode"); break; }
     if (ra.unjoined || rc.unjoined || rb.unjoined) o.fail("unjoined-thread", std::string(routine_name[c.routine]) + ": a worker was not joined before the results were returned");
     for (RunRes *r : {&rc, &rb, &ra}) if (!r->race_cls.empty()) { o.fail(r->race_cls, std::string(routine_name[c.routine]) + ": unsynchronised shared state: " + r->race_txt); break; }
     if (prior) {
